@@ -102,6 +102,7 @@ def run_history(case):
         wss = [Workspace.create(os.path.join(d, "a.geoh5")), Workspace.create(os.path.join(d, "b.geoh5"))]
         ws = wss[0]
         removed = []
+        removed_data = []
         other_ids = set()
         other_type_ids = set()
         kept_types = []
@@ -202,6 +203,26 @@ def run_history(case):
                     other.remove_entity(v)
                     del v, victims
                     gc.collect()  # no lookup here: the registries keep whatever stale entries the removal left
+            elif op == "remove_data" and objs:
+                # a data set is removed through the workspace; its identifier is given up
+                o = pick(objs)
+                kids = [c for c in o.children if hasattr(c, "values")]
+                if kids:
+                    removed_data.append((o.uid, kids[0].uid, len(np.atleast_1d(kids[0].values))))
+                    ws.remove_entity(kids[0])
+                    del kids
+                    gc.collect()
+                del o
+            elif op == "recreate_data" and removed_data:
+                # ... and taken by a different data set (other name, other values) of the same object
+                pu, u, n = removed_data.pop()
+                host = ws.get_entity(pu)[0]
+                if host is not None and ws.get_entity(u)[0] is None:
+                    nd = host.add_data({fresh("second"): {"values": np.arange(float(n)) * 10.0 + 3.0, "uid": u}})
+                    if nd.uid != u:
+                        bad = f"{tag}: an identifier freed by a removal could not be used again"
+                    del nd
+                del host
             elif op == "remove" and objs:
                 o = pick(objs)
                 removed.append((type(o), o.uid, o.name))
@@ -211,12 +232,22 @@ def run_history(case):
             elif op == "recreate" and removed:
                 cls, u, name = removed.pop()
                 if ws.get_entity(u)[0] is None:
-                    e = cls.create(ws, name=name, vertices=np.zeros((2, 3)), uid=u)
+                    # a different entity under the freed identifier (other name, other geometry)
+                    e = cls.create(ws, name=name + "-again", vertices=np.ones((5, 3)) * 7.0, uid=u)
                     if e.uid != u:
                         bad = f"{tag}: an identifier freed by a removal could not be used again"
             elif op == "reopen":
+                # whoever holds an identifier now is who a later session finds under it (not an entity removed earlier)
+                holders = {str(e.uid): (type(e).__name__, e.name, None if getattr(e, "vertices", None) is None else np.asarray(e.vertices).shape) for e in list(ws.objects) + list(ws.groups)}
+                holders.update({str(e.uid): (type(e).__name__, e.name, repr(np.asarray(e.values).tolist())) for e in ws.data if hasattr(e, "values") and e.values is not None and np.asarray(e.values).dtype.kind in "fiu"})
+                del objs, grps
                 ws.close()
                 ws = wss[0] = Workspace(os.path.join(d, "a.geoh5"), mode="r+")
+                for e in list(ws.objects) + list(ws.groups) + [x for x in ws.data if str(x.uid) in holders]:
+                    seen = (type(e).__name__, e.name, repr(np.asarray(e.values).tolist())) if hasattr(e, "association") else (type(e).__name__, e.name, None if getattr(e, "vertices", None) is None else np.asarray(e.vertices).shape)
+                    if str(e.uid) in holders and holders[str(e.uid)] != seen:
+                        bad = f"{tag}: the identifier {e.uid} was held by {holders[str(e.uid)]} when the file was closed; a later session finds {seen} under it"
+                        break
             elif op == "gc":
                 del objs, grps
                 gc.collect()
@@ -258,7 +289,7 @@ class IdentifierHistories(Contract):
     props = ("C06",)
     bounded_scope = ("two file-backed workspaces; sequences of 5-10 operations over {create points/group/data/property group, create with an identifier in use by the same kind (given as UUID, text, braced, upper-case, bare-hex or URN text, or through the 'ID' attribute key) / a type with the identifier of a type of another class / "
                      "another kind / a property group, property group with an object's or data's identifier, data with its parent's or a group's identifier, copy within / into the other workspace (also after the source gained new property groups, so that identifiers are free and taken in the same copy), a data type copied into the other workspace, (twice, also after removing the earlier copy there), remove, re-create with the "
-                     "freed identifier, re-open, gc}: 22 fixed + 60 seeded (quick) / 800 seeded (thorough); uniqueness, lookup, refusal-without-side-effects and type sharing after every step")
+                     "freed identifier (an object, a data set with other values), re-open with the holder of every identifier compared across the session boundary, gc}: 24 fixed + 60 seeded (quick) / 800 seeded (thorough); uniqueness, lookup, refusal-without-side-effects and type sharing after every step")
 
     FIXED = [
         [("points", 0), ("reuse_same", 0)],
@@ -285,6 +316,8 @@ class IdentifierHistories(Contract):
         [("points", 0), ("reuse_same", 4), ("reuse_same", 5), ("reuse_same", 6), ("reuse_same", 7), ("reopen", 0)],
         [("group", 0), ("points", 0), ("reopen", 0), ("reuse_same", 5), ("reuse_same", 7), ("reuse_same", 4)],
         [("group", 0), ("points", 0), ("data", 0), ("copy_same", 0), ("reopen", 0), ("copy_other", 1), ("reuse_data", 1)],
+        [("points", 0), ("data", 0), ("remove_data", 0), ("recreate_data", 0), ("reopen", 0)],
+        [("points", 0), ("data", 0), ("data", 0), ("reopen", 0), ("remove_data", 0), ("gc", 0), ("recreate_data", 0), ("reopen", 0), ("reuse_data", 0)],
     ]
 
     def native_cases(self, tier, rng):
